@@ -149,16 +149,31 @@ Theorem C06_cli_decode_segwit_iff : forall (s h : bytes) (v : Z) (p : bytes),
 Proof. exact cli_decode_segwit_iff. Qed.
 Print Assumptions C06_cli_decode_segwit_iff.
 
-Theorem C06_cli_encode_v0_is_segwit_addr : forall net hrp data,
-  In (net, hrp) [(net_mainnet, hrp_bc); (net_testnet, hrp_tb); (net_regtest, hrp_bcrt)] ->
-  cli_bech32_encode hrp data (Some 0) false = segwit_addr data 0 net.
-Proof. exact cli_encode_v0_is_segwit_addr. Qed.
-Print Assumptions C06_cli_encode_v0_is_segwit_addr.
+(* the encoder `bits bech32 --hrp H --witness-version V` (repaired by 442ffd4) is segwit_addr for every version *)
+Theorem C06_cli_encode_is_segwit_addr : forall net hrp v data,
+  In (net, hrp) [(net_mainnet, hrp_bc); (net_testnet, hrp_tb); (net_regtest, hrp_bcrt)] -> 0 <= v <= 16 ->
+  cli_bech32_encode hrp data (Some v) false = segwit_addr data v net.
+Proof. exact cli_encode_is_segwit_addr. Qed.
+Print Assumptions C06_cli_encode_is_segwit_addr.
 
-(* FINDING (known: cli-bech32-encode-v1plus): `bits bech32 --hrp bc --wv 1` writes a Bech32 (constant 1) checksum
-   for witness versions >= 1: not segwit_addr's output and not a valid segwit address *)
-Theorem C06_cli_encode_v1_refuted :
-  exists data a, cli_bech32_encode hrp_bc data (Some 1) false = Ok a
-                 /\ segwit_addr data 1 net_mainnet <> Ok a /\ spec_decode a = None /\ is_segwit_addr a = Ok false.
-Proof. exact cli_encode_v1_refuted. Qed.
-Print Assumptions C06_cli_encode_v1_refuted.
+Theorem C06_cli_encode_refuses_version : forall hrp data v pr, v < 0 \/ 16 < v ->
+  cli_bech32_encode hrp data (Some v) pr = Err ValueE.
+Proof. exact cli_encode_refuses_version. Qed.
+Print Assumptions C06_cli_encode_refuses_version.
+
+Theorem C06_cli_encode_roundtrip : forall net hrp v prog,
+  In (net, hrp) [(net_mainnet, hrp_bc); (net_testnet, hrp_tb); (net_regtest, hrp_bcrt)] -> 0 <= v <= 16 ->
+  program_length_ok v (length prog) = true ->
+  exists addr, cli_bech32_encode hrp prog (Some v) false = Ok addr
+               /\ spec_decode addr = Some (hrp, v, prog)
+               /\ cli_bech32_decode addr = Ok (CliSegwit hrp v prog).
+Proof. exact cli_encode_roundtrip. Qed.
+Print Assumptions C06_cli_encode_roundtrip.
+
+(* regression vector of 442ffd4: `printf 751e | bits bech32 --hrp bc --wv 1` must give b"bc1pw50q7ulhnr" *)
+Example C06_ex_cli_encode_v1 :
+  cli_bech32_encode hrp_bc [x75; x1e] (Some 1) false = segwit_addr [x75; x1e] 1 net_mainnet
+  /\ cli_bech32_encode hrp_bc [x75; x1e] (Some 1) false
+     = Ok [x62; x63; x31; x70; x77; x35; x30; x71; x37; x75; x6c; x68; x6e; x72]
+  /\ cli_bech32_encode hrp_bc [x75; x1e] (Some 17) false = Err ValueE.
+Proof. vm_compute. auto. Qed.
